@@ -198,7 +198,9 @@ def builtin_redir_sessions(r, tier, per_session=6):
         for op in ops:
             if "%s" in op:
                 tn += 1
-                tgt = "pre1" if (op.startswith(">>") or op.startswith("2>>")) and r.below(2) == 0 and "pre1" not in " ".join(words) else "t%d" % tn
+                # a target that already has content (truncation must empty it, append must keep it), at most once each per command
+                free = [t for t in ("pre1", "pre2") if t not in " ".join(words)]
+                tgt = r.choice(free) if free and r.below(3) == 0 else "t%d" % tn
                 w = op % tgt
                 words.append(w if r.below(2) else w.replace(" ", "", 1))
             else:
